@@ -397,7 +397,7 @@ fn supervise(worker: &str, args: &[String], jobs: usize, sink: &mut dyn FnMut(Va
                             v["lost"] = json!(why);
                             let _ = tx.send(Ok(v));
                             lost_items += 1;
-                            if lost_items >= 8 {
+                            if lost_items >= 4 {
                                 // the shell hangs or crashes on many programs: enough evidence
                                 let _ = tx.send(Ok(json!({"note": format!(
                                     "part {part}/{jobs} abandoned after {lost_items} hung/crashed executions")})));
